@@ -586,7 +586,8 @@ class Tr:
         a = fn.args
         if a.vararg or a.kwarg or a.posonlyargs:
             raise Unsupported(f"signature of {fn.name}")
-        names = [p.arg for p in a.args][1 if is_method else 0:]
+        static = any(isinstance(d, ast.Name) and d.id == "staticmethod" for d in fn.decorator_list)
+        names = [p.arg for p in a.args][1 if (is_method and not static) else 0:]
         kwonly = [p.arg for p in a.kwonlyargs]
         if len(n.args) > len(names) or any(isinstance(x, ast.Starred) for x in n.args):
             raise Unsupported(f"arguments of {fn.name}")
@@ -605,7 +606,7 @@ class Tr:
                 vals[p] = self.val(defaults[p], Env())
             else:
                 raise Unsupported(f"missing argument {p} of {fn.name}")
-        if is_method:
+        if is_method and not static:
             vals["self"] = env.vals["self"] if "self" in env.vals else Rec({})
         for key, v in env.vals.items():  # state slots of extractors built on this translator
             if key.startswith("@") and not key.startswith("@h"):
@@ -906,7 +907,7 @@ def loop_roles(fn: ast.FunctionDef, prelude, loop: ast.For, after):
     if target in read_after:
         raise Unsupported(f"{fn.name}: the loop variable is used after the loop")
     carried = assigned & (exp | read_after)
-    inputs = (exp & locals_) - carried - {target}
+    inputs = (exp & locals_) - carried - {target, "self"}
     return carried, inputs
 
 
